@@ -314,6 +314,41 @@ theorem matchRepl_none (p : Pattern) (rep : List RepTok) (mask s : List Char)
   simp [matchRepl, h]
 
 
+/-! ### one rendering: prefix without match, the match, suffix without match -/
+
+/-- the replacement of a match whose group boundaries are `A | B | C` -/
+theorem matchRepl_of_bounds (p : Pattern) (rep : List RepTok) (mask A B C post : List Char)
+    (h : matchPat p (A ++ (B ++ (C ++ post)))
+      = some ⟨(B ++ (C ++ post)).length, (C ++ post).length, post.length⟩) :
+    matchRepl p rep mask (A ++ (B ++ (C ++ post))) = some ((A ++ (B ++ C)).length, expand rep A C mask) := by
+  simp only [matchRepl, h]
+  have h1 : (A ++ (B ++ (C ++ post))).length - post.length = (A ++ (B ++ C)).length := by
+    simp only [List.length_append]; omega
+  have h2 : List.take ((A ++ (B ++ (C ++ post))).length - (B ++ (C ++ post)).length) (A ++ (B ++ (C ++ post))) = A :=
+    take_length_sub A _
+  have h3 : List.drop ((A ++ (B ++ (C ++ post))).length - (C ++ post).length) (A ++ (B ++ (C ++ post))) = C ++ post := by
+    have e : A ++ (B ++ (C ++ post)) = (A ++ B) ++ (C ++ post) := by simp
+    rw [e]; exact drop_length_sub _ _
+  have h4 : List.take ((C ++ post).length - post.length) (C ++ post) = C := take_length_sub C post
+  rw [h1, h2, h3, h4]
+
+/-- `re.sub` on `pre ++ A ++ B ++ C ++ post` when no match starts in `pre`, the pattern matches `A|B|C`
+    there, and nothing matches in `post` -/
+theorem subPat_rendering (p : Pattern) (rep : List RepTok) (mask pre A B C post : List Char)
+    (hne : A ++ (B ++ C) ≠ [])
+    (hpre : ∀ j, j < pre.length → matchPat p (pre.drop j ++ (A ++ (B ++ (C ++ post)))) = none)
+    (hm : matchPat p (A ++ (B ++ (C ++ post)))
+      = some ⟨(B ++ (C ++ post)).length, (C ++ post).length, post.length⟩)
+    (hpost : subPat p rep mask post = post) :
+    subPat p rep mask (pre ++ (A ++ (B ++ (C ++ post)))) = pre ++ (expand rep A C mask ++ post) := by
+  unfold subPat at hpost ⊢
+  rw [subAux_prefix _ _ _ (fun j hj => matchRepl_none _ _ _ _ (hpre j hj))]
+  congr 1
+  have e : A ++ (B ++ (C ++ post)) = (A ++ (B ++ C)) ++ post := by simp
+  have hr := matchRepl_of_bounds p rep mask A B C post hm
+  rw [e] at hr ⊢
+  rw [subAux_match _ _ _ _ hne hr, hpost]
+
 /-! ### inversions of `Consumes` -/
 
 /-- a mandatory item (`lo ≥ 1`) consumed at least one character of its class -/
